@@ -354,7 +354,7 @@ SPECS['C17'] = {
     'selftests': [],
     'obligations': _pair('c17', 'context', (60, 120), 'initial flag x nesting 1..3 x exception at any level x 5 forms (with-blocks; decorated outermost; every level decorated = decorated calls decorated; decorated alternating with with-blocks; twice in a row)', ['high_compatibility_mode'])
       + _pair('c17', 'name_rule', (120, 300), 'symbolic str, len<=3 (any code point), mode on/off', ['validate_string'])
-      + _pair('c17', 'name_sites', (120, 120), '3 entry points x 10 example names (incl. trailing newline, NUL, tab) x mode (finite)', ['EFLRItem.__init__', 'StorageUnitLabel.__init__', 'FileHeaderItem.__init__'])
+      + _pair('c17', 'name_sites', (120, 120), '3 entry points at creation + the same 3 names assigned afterwards and encoded x 10 example names (incl. trailing newline, NUL, tab) x mode (finite)', ['EFLRItem.__init__', 'StorageUnitLabel.__init__', 'FileHeaderItem.__init__'])
       + _pair('c17', 'soft_enum', (60, 120), '4 enumerations x member/value/non-member x mode', ['ValidatorEnum.make_converter'])
       + _pair('c17', 'enum_sites', (120, 120), 'units (attribute value and units), index type, equipment type, location x mode', ['Attribute.units'])
       + _pair('c17', 'incidence', (120, 300), '2 channels x 2 frames: all incidence matrices x mode', ['LogicalFile._check_channels_assigned_to_frames'])
@@ -568,6 +568,7 @@ SPECS['C05'] = {
 }
 
 # C10 also owns the input-chunk independence obligations (defined with the data-path specs above)
+SPECS['C09']['obligations'] = SPECS['C09']['obligations'] + _pair('c09', 'set_names_once', (200, 400), '4 add_* methods x three objects with set names from {None, empty, A, B} (finite): sets of one type are told apart by their ENCODED set component', ['EFLRSetsDict.get_or_make_set', 'EFLRSet._make_set_component_bytes', 'DLISFile.generator'], shards=(16, 16))
 SPECS['C10']['obligations'] = SPECS['C10']['obligations'] + _tiling + _iteration
 _tnp = _pair('c11', 'tiling_nonpos', (120, 300), 'n<=40 rows, chunk size in [-60, 0], real DictDataWrapper over the numpy stub: refused, or every row once and in order', ['SourceDataWrapper.make_chunked_generator'],
              replay=D + 'replay_tiling_nonpos', validate=D + 'replay_tiling_nonpos')
